@@ -6,8 +6,8 @@ From Coq Require Import List Arith Bool Lia.
 From Crux Require Import Rt.Lang Rt.Rt Rt.Host Rt.Ref Rt.RefCore Rt.RefCoreProps.
 Import ListNotations.
 
-Lemma SF_S : exists g, SF = S g. Proof. exists 399. reflexivity. Qed.
-Lemma RF_S : exists g, RF = S g. Proof. exists 399. reflexivity. Qed.
+Lemma SF_S : exists g, SF = S g. Proof. exists 1999. reflexivity. Qed.
+Lemma RF_S : exists g, RF = S g. Proof. exists 1999. reflexivity. Qed.
 
 (* ---------- a bag: run_bag stops only when no strand can move ---------- *)
 Lemma run_bag_stuck : forall fuel b n o b' n' o',
